@@ -236,6 +236,7 @@ func judgeReader(c *rt.CaseResult, r *c08Reader, groups map[string][]string, com
 
 func c08Stress(tier string, seed int64, idx int, scratch string) rt.CaseResult {
 	var c rt.CaseResult
+	rt.SetWatchdogLimit(25 * time.Second)
 	rng := seqrun.Rng(seed, "C08", idx)
 	env, err := dbx.Open(dbx.Options{Mode: dbx.Inline, Dir: filepath.Join(scratch, "db"), GCPeriod: time.Duration(2+rng.Intn(6)) * time.Millisecond, NumWorkers: 2})
 	if err != nil {
